@@ -191,7 +191,18 @@ def run_case(case):
         # ill-formed with and without bundling (C07's business) - but the bundle can still be judged for completeness,
         # lexically: RUN at the start of a statement (after the label or after a backslash), procedure headers by regex
         g = lib_graph()
-        body = plain["out"]
+        # (comments are no calls: each line is cut at the first comment opener that stands outside a string constant - a
+        # remark that spells a RUN statement behind a backslash was taken for a call by this fallback, DESIGN 10.24)
+        def no_comment(ln):
+            instr = False
+            for k_, ch in enumerate(ln):
+                if ch == '"':
+                    instr = not instr
+                elif not instr and ln.startswith("(*", k_):
+                    return ln[:k_]
+            return ln
+
+        body = "\n".join(no_comment(ln) for ln in plain["out"].split("\n"))
         roots = {m.lower() for m in re.findall(r"(?im)(?:^\d*[ \t]*|\\[ \t]*)RUN[ \t]+(\w+)\(", body)}
         need = closure([r for r in roots if r in g], g)
         got = {m.lower() for m in re.findall(r"(?im)^procedure[ \t]+(\S+)[ \t]*$", out)}
@@ -319,7 +330,8 @@ MAXIMAL = [
 
 def cases(tier, seed):
     n = 400 if tier == "quick" else 60000
-    names = ["prog", "my-p", "A_1", "x", "9lives", "bad name", "é", "", "Zz-9_", "game\n", "p\r", "q\n\n", " lead", "trail ", "a.b", "\nx"]
+    names = ["prog", "my-p", "A_1", "x", "9lives", "bad name", "é", "", "Zz-9_", "game\n", "p\r", "q\n\n", " lead", "trail ", "a.b", "\nx",
+             "maze_generator_for_the_coco_3", "maze_generator_for_the_coco_3x", "the-quick-brown-fox-jumps-over-the-lazy", "x" * 64]
     k = 0
     for t in MAXIMAL:
         for size in (32, 64, 200, 16, 1, 31, 255):
